@@ -116,7 +116,9 @@ func c19Gen(r *wk.Rand) []c19Obj {
 					p.refID = c19Ident(r, map[string]bool{})
 				} else {
 					// a referenced object whose name merely begins like a type ID
-					p.refID = wk.Pick(r, []string{"interval", "internalEndpoint", "intOrString", "integers", "floatingIP", "floats", "stringer", "boolish", "listing", "mapper", "objective", "refund", "anyone"})
+					p.refID = wk.Pick(r, []string{"interval", "internalEndpoint", "intOrString", "integers", "floatingIP", "floats", "stringer", "boolish", "listing", "mapper", "objective", "refund", "anyone",
+						// ... or that IS a type ID: the field is still typed by the referenced object's name
+						"integer", "float", "string", "bool", "list", "any"})
 				}
 			}
 			objs[i].props = append(objs[i].props, p)
